@@ -418,6 +418,14 @@ let op_scan r = function
         end
       end;
       (* ---- C01 / C08: the snapshot the printed AST denotes ---- *)
+      if kind = "race-unknown" then begin
+        let e = canon_gs (goroutines_of (parse_sx expect)) in
+        (match i_gs with
+         | None -> flag r "prop:C08:no-snapshot"
+         | Some gs -> if canon_gs gs <> e then flag r "prop:C08:unknown-creator-misattributed");
+        if i_err <> "scan" then flag r "prop:C08:unknown-creator-not-an-error";
+        tag r "unknown-creator"
+      end;
       if kind = "dump" || kind = "race" then begin
         let e = canon_gs (goroutines_of (parse_sx expect)) in
         let p = if kind = "dump" then "prop:C01" else "prop:C08" in
@@ -955,6 +963,22 @@ let op_alias r = function
      | M.Panic _ -> flag r "corr:panic")
   | _ -> failwith "alias: fields"
 
+(* ---------- op: pppipe (C11 end to end) ---------- *)
+let op_pppipe r = function
+  | [pieces; _tails; oks; out; exit] ->
+    let ps = List.map unhex (String.split_on_char ',' pieces) in
+    tag r (Printf.sprintf "pieces=%d" (min 9 (List.length ps)));
+    List.iteri (fun i ok -> if ok <> "1" then flag r (Printf.sprintf "prop:C11:pp-withholds-after-piece-%d" i)) (String.split_on_char ',' oks);
+    if exit = "hang" then flag r "prop:C03:pp-hang";
+    let content = String.concat "" ps in
+    let o = { M.o_level = M.AnyPointer; o_pf = M.BasePath; o_pal = []; o_filter = None; o_match = None; o_banner = false } in
+    (match M.pp_run o (bytes_of_string content) with
+     | M.Ok (m, ok) ->
+       if string_of_bytes m <> unhex out then flag r "corr:pp:pipe"
+       else if (ok && exit <> "0") || (not ok && exit = "0") then flag r "corr:pp-exit:pipe"
+     | M.Panic _ -> flag r "corr:panic")
+  | _ -> failwith "pppipe: fields"
+
 (* ---------- main loop ---------- *)
 let () =
   let ops : (string, res -> string list -> unit) Hashtbl.t = Hashtbl.create 16 in
@@ -969,6 +993,7 @@ let () =
   Hashtbl.replace ops "guess" op_guess;
   Hashtbl.replace ops "augment" op_augment;
   Hashtbl.replace ops "alias" op_alias;
+  Hashtbl.replace ops "pppipe" op_pppipe;
   Hashtbl.replace ops "handler" op_handler;
   Hashtbl.replace ops "chunk" op_chunk;
   (try
